@@ -82,4 +82,23 @@ theorem usageObjSound_iff (s : Reg) : usageObjSound s ↔
   uforall_iff _ _ _
 
 end Clause
+
+set_option linter.unusedSimpArgs false
+
+/-- normalise a goal / hypotheses about the state after a sequence of primitives into statements about the lookups of the
+initial state -/
+macro "reg_norm" : tactic => `(tactic| simp only [
+  Clause.typedNodeSound_iff, Clause.typedNodeComplete_iff, Clause.typedLinkSound_iff, Clause.typedLinkComplete_iff,
+  Clause.typedCurveSound_iff, Clause.endsExist_iff, Clause.usageNodeSound_iff, Clause.usageNodeLinks_iff, Clause.usageNodeSources_iff,
+  Clause.usagePatSound_iff, Clause.usagePatNodes_iff, Clause.usagePatLinks_iff, Clause.usagePatSources_iff, Clause.usageCurveSound_iff,
+  Clause.usageCurveNodes_iff, Clause.usageCurveLinks_iff, Clause.usageObjSound_iff,
+  setUsage_nodes, setUsage_links, setUsage_patterns, setUsage_curves, setUsage_sources, setUsage_controls, setUsage_typed, setUsage_nextUid, setTyped_nodes, setTyped_links, setTyped_patterns, setTyped_curves, setTyped_sources, setTyped_controls, setTyped_usage, setTyped_nextUid, addUsage_nodes, addUsage_links, addUsage_patterns, addUsage_curves, addUsage_sources, addUsage_controls, addUsage_typed, addUsage_nextUid, addUsageO_nodes, addUsageO_links, addUsageO_patterns, addUsageO_curves, addUsageO_sources, addUsageO_controls, addUsageO_typed, addUsageO_nextUid, removeUsageT_nodes, removeUsageT_links, removeUsageT_patterns, removeUsageT_curves, removeUsageT_sources, removeUsageT_controls, removeUsageT_typed, removeUsageT_nextUid, popUsageKey_nodes, popUsageKey_links, popUsageKey_patterns, popUsageKey_curves, popUsageKey_sources, popUsageKey_controls, popUsageKey_typed, popUsageKey_nextUid, typedAdd_nodes, typedAdd_links, typedAdd_patterns, typedAdd_curves, typedAdd_sources, typedAdd_controls, typedAdd_usage, typedAdd_nextUid, typedDiscard_nodes, typedDiscard_links, typedDiscard_patterns, typedDiscard_curves, typedDiscard_sources, typedDiscard_controls, typedDiscard_usage, typedDiscard_nextUid, typedAddAll_nodes, typedAddAll_links, typedAddAll_patterns, typedAddAll_curves, typedAddAll_sources, typedAddAll_controls, typedAddAll_usage, typedAddAll_nextUid, typedDiscardAll_nodes, typedDiscardAll_links, typedDiscardAll_patterns, typedDiscardAll_curves, typedDiscardAll_sources, typedDiscardAll_controls, typedDiscardAll_usage, typedDiscardAll_nextUid, setNode_links, setNode_patterns, setNode_curves, setNode_sources, setNode_controls, setNode_usage, setNode_nextUid, setLink_nodes, setLink_patterns, setLink_curves, setLink_sources, setLink_controls, setLink_usage, setLink_nextUid, bumpUid_nodes, bumpUid_links, bumpUid_patterns, bumpUid_curves, bumpUid_sources, bumpUid_controls, bumpUid_usage, bumpUid_typed, dropControls_nodes, dropControls_links, dropControls_patterns, dropControls_curves, dropControls_sources, dropControls_usage, dropControls_typed, dropControls_nextUid, removeUsageO_nodes, removeUsageO_links, removeUsageO_patterns, removeUsageO_curves, removeUsageO_sources, removeUsageO_controls, removeUsageO_typed, removeUsageO_nextUid,
+  setCurveTypeR_nodes, setCurveTypeR_links, setCurveTypeR_patterns, setCurveTypeR_curves, setCurveTypeR_sources, setCurveTypeR_controls, setCurveTypeR_usage, setCurveTypeR_nextUid, setCurveTypeOR_nodes, setCurveTypeOR_links, setCurveTypeOR_patterns, setCurveTypeOR_curves, setCurveTypeOR_sources, setCurveTypeOR_controls, setCurveTypeOR_usage, setCurveTypeOR_nextUid,
+  setNode_nodes', setLink_links', bumpUid_nextUid, mem_setCurveTypeR, mem_setCurveTypeOR, user_eq_mk,
+  mem_addUsage, mem_addUsageO, mem_removeUsageT, mem_removeUsageO, mem_popUsageKey, mem_typedAdd, mem_typedDiscard, mem_typedAddAll,
+  mem_typedDiscardAll, mem_setNode_typed, mem_setLink_typed, AL.get?_set, AL.get?_del, OSet.mem_add, OSet.mem_discard,
+  ite_some_eq_some, ite_none_eq_some, ite_eq_some_none, or_and_right, exists_or, and_assoc, exists_and_left, exists_eq_left',
+  Option.some.injEq, reduceCtorEq, false_and, and_false, or_false, false_or, true_and, and_true, exists_false, not_false_eq_true, not_true_eq_false,
+  Prod.mk.injEq, ne_eq] at *)
+
 end Wntr.Registry
